@@ -182,7 +182,7 @@ func (sc *Scenario) Index() {
 	sc.OnlyHReq = true
 	for _, r := range sc.Universe {
 		switch r.Ret {
-		case RetKind, RetTopKind, RetElse:
+		case RetKind, RetTopKind, RetElse, RetElseIf, RetForRange:
 			sc.OnlyHReq = false
 		}
 		for _, s := range r.Secs {
